@@ -8,9 +8,13 @@ func init() {
 		Assumptions: []string{"A4", "A5"},
 		Run: func(c *Ctx) {
 			ruleWalker(c)
+			ruleWalkerOut(c)
+			ruleDescriptorTags(c)
 			ruleOneOutputPerElement(c)
 			ruleNoSort(c)
 			ruleSameDescriptor(c)
+			ruleEntryPair(c)
+			ruleLookupStateless(c, []string{"plenccodec.Descriptor.readAsStruct"})
 		},
 	})
 }
